@@ -48,7 +48,7 @@ func (s *sliceNode) execute(data any) (any, error) {
 		if err != nil {
 			return nil, err
 		}
-		values = reflect.Append(values, reflect.ValueOf(value))
+		values = reflect.Append(values, valueOf(value, s.typ.Elem()))
 	}
 	return values.Interface(), nil
 }
@@ -64,7 +64,16 @@ func (m *mapNode) execute(data any) (any, error) {
 		if err != nil {
 			return nil, err
 		}
-		values.SetMapIndex(reflect.ValueOf(keyRes), reflect.ValueOf(value))
+		values.SetMapIndex(valueOf(keyRes, m.typ.Key()), valueOf(value, m.typ.Elem()))
 	}
 	return values.Interface(), nil
+}
+
+// valueOf returns the reflect.Value of val; a nil val becomes the zero value of typ, so that
+// nil elements are kept as they are instead of being rejected (or, in a map, deleted) by reflect.
+func valueOf(val any, typ reflect.Type) reflect.Value {
+	if val == nil {
+		return reflect.Zero(typ)
+	}
+	return reflect.ValueOf(val)
 }
